@@ -1144,6 +1144,10 @@ pub fn m12(level: u8) -> Vec<Model> {
         Con::BoolLinEq(vec![1, 1], vec![t, b], 0),
         Con::BoolLinEq(vec![2, 1], vec![f, nb], 0),
         Con::BoolLinEq(vec![1, 2], vec![b, t], 1),
+        // weights equal to 0
+        Con::BoolLinLe(vec![0, 2], vec![b, t], 1),
+        Con::BoolLinLe(vec![3, 0], vec![nb, f], 2),
+        Con::BoolLinEq(vec![0, 1], vec![t, b], 0),
         // the constant literal as an integer variable
         Con::LinLe(vec![View::new(3, 2, 0), v(0)], 3),
         Con::LinLe(vec![View::new(3, 1, 1), View::new(2, 1, -1)], 1),
